@@ -364,25 +364,19 @@ func (m *Message) ReadFrom(r io.Reader) error {
 }
 
 func readSection(reader *bufio.Reader, readN int) ([]byte, error) {
-	buf := make([]byte, readN)
-
-	var err error
-	n := 0
-	for n < readN {
-		m, err := reader.Read(buf[n:])
-		n += m
-		if err != nil {
-			break
-		}
+	if readN < 0 {
+		return nil, fmt.Errorf("Invalid section size: %d", readN)
 	}
 
-	if err != nil {
-		return buf, err
-	}
+	// The size comes from the header of a (possibly remote) message. Read the section as the
+	// data arrives instead of allocating the announced size up front.
+	var section bytes.Buffer
+	n, _ := io.CopyN(&section, reader, int64(readN))
+	buf := section.Bytes()
 
 	end, err := reader.ReadString('\n')
 	switch {
-	case n != readN:
+	case int(n) != readN:
 		return buf, io.ErrUnexpectedEOF
 	case err == io.EOF:
 		// That's ok
